@@ -246,3 +246,29 @@ Theorem C02_source_slice_casts :
     Some ["assert ! (slice . len () == N :: USIZE , ""slice.len() != N in GenericArray::from_mut_slice"") ;";
           "unsafe { & mut * (slice . as_mut_ptr () as * mut GenericArray < T , N >) }"].
 Proof. repeat split. Qed.
+
+(* ---- T2: the bounds of the trait impls this property's operations come from, as they stand in the source now
+        (coq/gen/GenSigs.v gen_impl_bounds): code that is generic over the lengths / element type and states
+        exactly these bounds can call them ---- *)
+From Coq Require Import String.
+From GA Require Import SigDefs.
+From GAGen Require Import GenSigs.
+Local Open Scope string_scope.
+
+Theorem C02_source_impl_bounds :
+  bounds_of "Deref for GenericArray<T,N>" = Some ["N:ArrayLength"] /\
+  bounds_of "DerefMut for GenericArray<T,N>" = Some ["N:ArrayLength"] /\
+  bounds_of "IntoIterator for &GenericArray<T,N>" = Some ["N:ArrayLength"] /\
+  bounds_of "IntoIterator for &mutGenericArray<T,N>" = Some ["N:ArrayLength"] /\
+  bounds_of "TryFrom<&[T]> for &GenericArray<T,N>" = Some ["N:ArrayLength"] /\
+  bounds_of "TryFrom<&mut[T]> for &mutGenericArray<T,N>" = Some ["N:ArrayLength"] /\
+  bounds_of "Borrow<[T]> for GenericArray<T,N>" = Some ["N:ArrayLength"] /\
+  bounds_of "BorrowMut<[T]> for GenericArray<T,N>" = Some ["N:ArrayLength"] /\
+  bounds_of "AsRef<[T]> for GenericArray<T,N>" = Some ["N:ArrayLength"] /\
+  bounds_of "AsMut<[T]> for GenericArray<T,N>" = Some ["N:ArrayLength"] /\
+  bounds_of "From<[T;N]> for GenericArray<T,ConstArrayLength<N>>" = Some ["Const<N>:IntoArrayLength"; "const N"] /\
+  bounds_of "From<&[T;N]> for &GenericArray<T,ConstArrayLength<N>>" = Some ["Const<N>:IntoArrayLength"; "const N"] /\
+  bounds_of "From<&mut[T;N]> for &mutGenericArray<T,ConstArrayLength<N>>" = Some ["Const<N>:IntoArrayLength"; "const N"] /\
+  bounds_of "AsRef<[T;N]> for GenericArray<T,ConstArrayLength<N>>" = Some ["Const<N>:IntoArrayLength"; "const N"] /\
+  bounds_of "AsMut<[T;N]> for GenericArray<T,ConstArrayLength<N>>" = Some ["Const<N>:IntoArrayLength"; "const N"].
+Proof. repeat split. Qed.
